@@ -49,3 +49,9 @@ mod queues_h {
     use super::common::*;
     include!(concat!(env!("MRECORDLOG_VERIF_HARNESS_DIR"), "/queues.rs"));
 }
+
+#[allow(dead_code, unused_imports, unused_variables, unused_mut, unused_assignments, clippy::all)]
+mod log_h {
+    use super::common::*;
+    include!(concat!(env!("MRECORDLOG_VERIF_HARNESS_DIR"), "/log.rs"));
+}
